@@ -79,7 +79,7 @@ def model_lines(bufs, script):
     return ";".join(ops)
 
 
-def run_script(ctx, probe, path: Path, bufs, script, tag):
+def run_script(ctx, probe, path: Path, bufs, script, tag, alias: Path = None, probe_inside=()):
     from molli.storage import Collection, UkvCollectionBackend
 
     if path.exists():
@@ -90,7 +90,28 @@ def run_script(ctx, probe, path: Path, bufs, script, tag):
     toks = []
     for si, (c, kind, fault, puts, cut) in enumerate(script):
         col = cols[c]
-        out = sesslib.run_session(col, kind, fault, puts, cut=cut)
+        ppath = alias if alias is not None else path      # the second process reaches the library through an aliased path
+        in_body = None
+        if si in probe_inside and fault not in ("atBegin", "atUpdate"):
+            def in_body():
+                # while this session is inside its body a second process must not get the write lock,
+                # and must get a read lock iff this session is a reader
+                return (probe.ask("w", ppath, timeout=8.0, lock_timeout=0.25), probe.ask("r", ppath, timeout=8.0, lock_timeout=0.25))
+        out = sesslib.run_session(col, kind, fault, puts, cut=cut, in_body=in_body)
+        if "in_body" in out:
+            aw, ar = out["in_body"]
+            ctx.count("in_session_probes")
+            if aw != "timeout":
+                ctx.violation("C04:second-process-writes-during-session",
+                              f"while a {kind} session was inside its body a second process (path alias) obtained the write lock ({aw[:20]})",
+                              {"bufs": bufs, "script": tag, "at": si})
+            elif kind == "writing" and ar != "timeout":
+                ctx.violation("C04:second-process-reads-during-writing-session",
+                              f"while a writing session was inside its body a second process (path alias) obtained a read lock ({ar[:20]})",
+                              {"bufs": bufs, "script": tag, "at": si})
+            elif kind == "reading" and not ar.startswith("ok"):
+                ctx.violation("C04:readers-do-not-share", f"a second process could not read while a reading session was open ({ar[:20]})",
+                              {"bufs": bufs, "script": tag, "at": si})
         step = {"session": si, "col": c, "kind": kind, "fault": fault, "puts": [[k, hx(v)] for k, v in puts], "cut": cut}
         ctx.count(f"session:{kind}:{fault}")
         # ---- reference semantics
@@ -125,7 +146,7 @@ def run_script(ctx, probe, path: Path, bufs, script, tag):
         else:
             expected_after_min = expected_after_max = dict(expected)
         # ---- a second process must be able to take the lock and must see the library
-        ans = probe.ask("w", path, timeout=8.0)
+        ans = probe.ask("w", ppath, timeout=8.0)
         lib = parse_probe(ans)
         if lib is None:
             ctx.violation(f"C04:lock-not-released-after-{kind}-session-fault-{fault}",
@@ -133,7 +154,7 @@ def run_script(ctx, probe, path: Path, bufs, script, tag):
                           f"steps entered: {out['trace']}",
                           {"bufs": bufs, "script": tag, "at": step})
             sesslib.force_cleanup(col)
-            ans2 = probe.ask("w", path, timeout=8.0)
+            ans2 = probe.ask("w", ppath, timeout=8.0)
             lib = parse_probe(ans2) or {}
         else:
             if not out["closed"]:
@@ -244,6 +265,70 @@ for s in range(nsess):
     return path, events, hung, errs
 
 
+def creation_race(ctx, work: Path, nproc: int, rounds: int):
+    """several processes construct their handle on a library that does not exist yet at the same instant and run one
+    writing session each; every such session completes, so every record must be there afterwards"""
+    root = work / f"race{ctx.rng.below(1 << 30)}"
+    root.mkdir()
+    src = r'''
+import sys, os, time
+sys.path.insert(0, os.environ["VERIF_REPO_PATH"])
+from molli.storage import Collection, UkvCollectionBackend
+root, who, rounds, t0, dt = sys.argv[1], int(sys.argv[2]), int(sys.argv[3]), float(sys.argv[4]), float(sys.argv[5])
+bad = []
+for r in range(rounds):
+    target = t0 + r * dt
+    while time.monotonic() < target - 0.002:
+        time.sleep(0.001)
+    while time.monotonic() < target:
+        pass
+    try:
+        lib = Collection(os.path.join(root, f"lib{r}.ukv"), UkvCollectionBackend, readonly=False)
+        with lib.writing(timeout=20):
+            lib[f"p{who}"] = (f"r{r}p{who}-" * (3 + who)).encode()
+    except Exception as e:
+        bad.append(f"round {r}: {type(e).__name__}")
+print(";".join(bad))
+'''
+    env = dict(os.environ)
+    env["VERIF_REPO_PATH"] = str(common.REPO)
+    t0 = time.monotonic() + 1.5          # time for the interpreters to start and import molli
+    dt = 0.06
+    procs = [subprocess.Popen([common.repo_python(), "-c", src, str(root), str(w), str(rounds), repr(t0), repr(dt)], env=env,
+                              stdout=subprocess.PIPE, stderr=subprocess.DEVNULL, text=True) for w in range(nproc)]
+    problems = []
+    for w, p in enumerate(procs):
+        try:
+            out, _ = p.communicate(timeout=60 + rounds * dt * 4)
+            if out.strip():
+                problems.append(f"process {w}: {out.strip()[:120]}")
+        except subprocess.TimeoutExpired:
+            p.kill()
+            problems.append(f"process {w} hung")
+    from molli.storage import Collection, UkvCollectionBackend
+    lost = []
+    for r in range(rounds):
+        path = root / f"lib{r}.ukv"
+        try:
+            col = Collection(path, UkvCollectionBackend, readonly=True)
+            with col.reading(timeout=10):
+                got = {k: col[k] for k in col.keys()}
+        except Exception as e:
+            got = {"<unreadable>": type(e).__name__}
+        for w in range(nproc):
+            if got.get(f"p{w}") != (f"r{r}p{w}-" * (3 + w)).encode():
+                lost.append((r, w))
+    ctx.count("creation_race_rounds", rounds)
+    if problems:
+        ctx.violation("C04:session-fails-on-fresh-library", f"sessions on a library being created concurrently failed: {problems[:2]}",
+                      {"creation_race": {"nproc": nproc, "rounds": rounds}, "problems": problems[:5]})
+    elif lost:
+        ctx.violation("C04:completed-session-record-lost",
+                      f"{len(lost)} records of completed sessions are missing after {nproc} processes created and wrote the same fresh library concurrently "
+                      f"(first: round {lost[0][0]}, process {lost[0][1]})",
+                      {"creation_race": {"nproc": nproc, "rounds": rounds}, "lost": lost[:10]})
+
+
 def check_history(ctx, path, events, hung, errs, tag):
     """decidable serialisation spec over the merged log (writer sessions: [begin .. done/failed] intervals)"""
     from molli.storage import Collection, UkvCollectionBackend
@@ -310,6 +395,8 @@ def run(ctx):
 
     probe = sesslib.Probe(work)
     lines, impls = [], []
+    (work / "real").mkdir(exist_ok=True)
+    os.symlink(work / "real", work / "alias")         # the same directory under a second name
     try:
         # ---- exhaustive at session granularity: every order of `depth` sessions over two long-lived collection
         # objects (bufsize 10^6 and -1), each session of every kind x fault
@@ -349,7 +436,9 @@ def run(ctx):
             bufs = [ctx.rng.choice([-1, 0, 64, 1_000_000]) for _ in range(ncols)]
             script = gen_script(ctx.rng, ncols, ctx.rng.range(3, 8), bufs)
             tag = [[c, k, f, [[a, hx(b)] for a, b in p], cut] for c, k, f, p, cut in script]
-            toks = run_script(ctx, probe, work / f"script{n}.ukv", bufs, script, tag)
+            inside = {ctx.rng.below(len(script))} if n < (12 if ctx.quick() else 80) else ()
+            toks = run_script(ctx, probe, work / "real" / f"script{n}.ukv", bufs, script, tag,
+                              alias=work / "alias" / ".." / "alias" / f"script{n}.ukv", probe_inside=inside)
             lines.append(model_lines(bufs, script))
             impls.append((toks, bufs, tag))
             nt = any(s[2] != "none" for s in script[:-1])
@@ -380,6 +469,9 @@ def run(ctx):
         ctx.count("multiprocess_rounds")
         ctx.count("multiprocess_sessions", len([e for e in events if e[3] == "begin"]))
         ctx.check_deadline()
+    # ---- processes racing to create the library
+    creation_race(ctx, work, 4, 25 if ctx.quick() else 150)
+    ctx.case("creation-race", True)
     ctx.extra_cov["traces_validated_against_impl"] = len(lines) + rounds
 
 
